@@ -336,14 +336,22 @@ class MagnitudeFlow:
     def __init__(self, fn, sink_of, tables=None, find_method=None, records=None):
         self.ok, self.escaped, self.alias, self.spelled, self.roots = {}, set(), {}, {}, {}
         self.elementwise, self.misaligned, self.mixed_units, self.untraced = [], [], [], []
+        rec_nodes = {k: v for k, v in (records or {}).items() if isinstance(v, ast.ClassDef)}
+        cls_ = getattr(fn, "_parent", None)
+        if rec_nodes:
+            # records built by a straight-line helper read as their field expressions (x.left, x.magnitudes_in(u), x.index)
+            from ..astutil import expand_records
+            fn = expand_records(fn, find_method, None, rec_nodes)
         self.fn, self.sink_of, self.find_method = fn, sink_of, find_method
-        self.records = records or {}       # record classes of the module: name -> field names in order
+        # record classes of the module: name -> field names in order
+        self.records = {k: ([b.target.id for b in v.body if isinstance(b, ast.AnnAssign) and isinstance(b.target, ast.Name)]
+                            if isinstance(v, ast.ClassDef) else v) for k, v in (records or {}).items()}
         self.returned = set()              # extractions handed back to the caller (judged in the callers' flows)
+        self.in_record_method = isinstance(cls_, ast.ClassDef) and cls_.name in (records or {})
         self.collect, self.depth = None, 0
         from ..astutil import expanded as _exp
         self._exp = lambda e: _exp(e, fn)
         # class-level tables of the enclosing class read as self.TABLE
-        cls_ = getattr(fn, "_parent", None)
         class_tables = {st_.targets[0].id: st_.value for st_ in (cls_.body if isinstance(cls_, ast.ClassDef) else [])
                         if isinstance(st_, ast.Assign) and len(st_.targets) == 1 and isinstance(st_.targets[0], ast.Name)
                         and isinstance(st_.value, ast.Dict)}
@@ -412,7 +420,7 @@ class MagnitudeFlow:
         if u is None and root is not None:
             u = f"{root}.unit"
         idx = f"{root}.value.index" if root is not None else None
-        sid = self.spelled.get(id(e), id(e))
+        sid = self.spelled.get(id(e), id(getattr(e, "_origin", e)))
         self.roots.setdefault(sid, set()).add(root)
         # an index alignment already in the receiver
         for c in ast.walk(recv):
@@ -471,6 +479,8 @@ class MagnitudeFlow:
                 self.alias[st[0]] = {i for i, _, _ in behind if i != "zeros"}
                 return behind
             if st[1] is None:
+                if self.in_record_method:
+                    return {st}       # a field of a record: what it holds is known where the record is built (the callers)
                 return kill(e, env)
             return {st}
         if isinstance(e, ast.Call) and norm(e.func) in ("np.zeros", "numpy.zeros", "np.zeros_like", "np.full", "numpy.full") and (
@@ -818,7 +828,7 @@ def module_record_classes(tree):
     for st in tree.body:
         if isinstance(st, ast.ClassDef) and (any(norm(b).split(".")[-1] == "NamedTuple" for b in st.bases)
                                              or any("dataclass" in norm(d) for d in st.decorator_list)):
-            out[st.name] = [b.target.id for b in st.body if isinstance(b, ast.AnnAssign) and isinstance(b.target, ast.Name)]
+            out[st.name] = st          # the class itself: its fields, properties and methods
         if isinstance(st, ast.Assign) and len(st.targets) == 1 and isinstance(st.targets[0], ast.Name) \
                 and isinstance(st.value, ast.Call) and norm(st.value.func).split(".")[-1] == "namedtuple" and len(st.value.args) >= 2:
             spec = st.value.args[1]
